@@ -8,6 +8,31 @@ ROOT = os.path.dirname(os.path.dirname(os.path.dirname(
 PY = "/venv/bin/python"
 
 CHECKS = {
+    "C01": dict(
+        technique="property-based testing: generated operation programs "
+        "(histories) + re-scan type-checker oracle; ill-typed requests "
+        "decided by key comparison",
+        text="Programs of up to 25-40 public operations over pools of "
+        "generated diagrams in all eight diagram classes; every returned or "
+        "yielded value (including every rewrite step, foliation slice, sum "
+        "term and bubble inside) is re-scanned from its domain by an "
+        "independent checker that compares (name, z) keys and the per-layer "
+        "view; ill-typed requests must raise. Exploration, not proof.",
+        note="Trusts the harness re-scan O1; exotic slices only need to raise "
+        "or be well-typed; an AxiomError on a request O1 deems well-typed is "
+        "reported, other exception types are counted as refusals.",
+        ref="5/C01"),
+    "C02": dict(
+        technique="property-based testing: metamorphic algebraic laws as == "
+        "plus structural-key comparison and spec-side expected composites",
+        text="Composable and arbitrary triples and formal sums of generated "
+        "diagrams in all eight classes; each listed law is asserted with == "
+        "in both directions and by structural keys read from attributes, and "
+        "composites/tensors/daggers are compared with the harness-side "
+        "concatenation of the specs. Exploration, not proof.",
+        note="Both sides of a law come from the library; independence comes "
+        "from the spec-side expectation and the key comparison. cartesian "
+        "defines no dagger (clauses skipped there).", ref="5/C02"),
     "C05": dict(
         technique="property-based testing (Hypothesis) + exhaustive small-"
         "scope enumeration against a model interchange and an exact "
